@@ -113,6 +113,24 @@ CLAIMED = {
          'at every ARTIM point, a write failing in every turn, and disconnecting between outgoing fragments.',
          'Partial: sendall()/connect() are assumed to return or raise in bounded time (OS); a kill() forced on a '
          'non-idle provider leaves the socket to the garbage collector (outside the property\'s list of endings).'),
+ 'C09': ('DESIGN.md §6 C09',
+         'Lean 4 theorems on the acceptance function for all requests and configurations + exhaustive small-universe harness',
+         'answers_each_once_in_order, accepted_iff, ts_is_proposed_and_supported, served_eq_reported hold for every request '
+         'and every configuration (unbounded). The real AssociationAcceptor (real __init__, stub provider) is run on '
+         'wire-decoded requests over all requests with up to 2 contexts x ordered lists of 1..3 of 4 transfer syntaxes x '
+         'configurations, plus seeded larger ones; the reply is re-read from the wire, the served table and the real message '
+         'loop dispatch are judged against what was reported, and the model is diffed.',
+         'Trusted: Lean kernel; harness stubs for the provider thread and socketserver plumbing. Rejections use result 1 '
+         'rather than 3/4: the property only requires "not accepted".'),
+ 'C11': ('DESIGN.md §6 C11',
+         'Lean 4 theorems on id allocation and reply processing + harness on the real requester, strict reader on the request',
+         'ids_are_odd_sequence (k-th configured class gets id 2k+1, for every call sequence), ids_in_byte_range (<= 128 '
+         'classes), ids_overflow (the known finding, proved), proposes_each_entry, usable_eq_accepted, get_scu_iff. The real '
+         'AssociationRequester builds requests for configurations with totals around 127/128/129; the request is read by the '
+         'strict Lean reader; every accept/reject pattern over result codes 0..4 for up to 4 contexts is replied; usable '
+         'contexts and get_scu are judged and diffed with the model.',
+         'Known finding D18 (open): more than 128 configured SOP classes give context id 257. Replies that answer a context '
+         'that was never proposed raise KeyError (outside the property). get_scu concerns classes configured as SCU.'),
 }
 
 PENDING_REASON = 'check not built yet in this round; planned in DESIGN.md §6 (Lean model + theorem + tie)'
